@@ -209,6 +209,12 @@ func addFaults(r *Rng, p *Plan, rate float64) {
 	}
 }
 
+// drvKind draws what the database driver reports at a faulted operation: a generic failure, or SQLite's own errors for a
+// database locked by another connection beyond the busy timeout, an I/O error and a full disk.
+func drvKind(r *Rng) string {
+	return Pick(r, "fail", "fail", "busy", "busy", "locked", "ioerr", "full")
+}
+
 func makeConcurrent(r *Rng, p *Plan) {
 	p.Cfg.Seam = "iface"
 	p.Cfg.Clients = r.Range(2, 4)
@@ -255,7 +261,7 @@ func init() {
 				for occ := 0; occ < 2*len(p.Ops); occ++ {
 					for _, call := range []string{"drv.Begin", "drv.Query", "drv.Next", "drv.Exec", "drv.Commit", "drv.Rollback"} {
 						if r.Chance(0.05) {
-							p.Faults = append(p.Faults, Fault{At: fmt.Sprintf("c0:%s#%d", call, occ), Kind: "fail"})
+							p.Faults = append(p.Faults, Fault{At: fmt.Sprintf("c0:%s#%d", call, occ), Kind: drvKind(r)})
 						}
 					}
 				}
@@ -408,7 +414,7 @@ func init() {
 				for occ := 0; occ < 3*len(p.Ops); occ++ {
 					for _, call := range []string{"drv.Begin", "drv.Query", "drv.Next", "drv.Exec", "drv.Commit", "drv.Rollback"} {
 						if r.Chance(0.05) {
-							p.Faults = append(p.Faults, Fault{At: fmt.Sprintf("c0:%s#%d", call, occ), Kind: "fail"})
+							p.Faults = append(p.Faults, Fault{At: fmt.Sprintf("c0:%s#%d", call, occ), Kind: drvKind(r)})
 						}
 					}
 				}
@@ -570,6 +576,9 @@ func init() {
 			p := &Plan{Scenario: "W"}
 			p.Cfg = genConfig(r, pf)
 			p.Ops = genHistory(r, pf, &p.Cfg)
+			if n%6 == 1 {
+				p.Cfg.Extra = map[string]int64{"via_adapter": 1} // the same table must hold behind the adapter Main wires in
+			}
 			if n%4 == 3 {
 				// the rule order must also hold for the requests that FOLLOW a storage failure: operations hit by an
 				// injected fault are not judged, everything after them is, against the last committed state
@@ -580,7 +589,7 @@ func init() {
 					for occ := 0; occ < 3*len(p.Ops); occ++ {
 						for _, call := range []string{"drv.Begin", "drv.Query", "drv.Next", "drv.Exec", "drv.Commit", "drv.Rollback"} {
 							if r.Chance(0.06) {
-								p.Faults = append(p.Faults, Fault{At: fmt.Sprintf("c0:%s#%d", call, occ), Kind: "fail"})
+								p.Faults = append(p.Faults, Fault{At: fmt.Sprintf("c0:%s#%d", call, occ), Kind: drvKind(r)})
 							}
 						}
 					}
